@@ -18,6 +18,7 @@ type absNode struct {
 type absHandle struct {
 	path   string
 	dir    bool
+	stale  bool // directory handle whose directory changed since it was opened: listing it is not portable
 	canR   bool
 	canW   bool
 	closed bool
@@ -43,6 +44,15 @@ type Gen struct {
 func NewGen(r *Rng) *Gen {
 	return &Gen{r: r, nodes: map[string]*absNode{"/": {dir: true}}, handles: map[int]*absHandle{}, names: []string{"a", "b", "c"},
 		maxDep: 3, Target: ".", Spell: true, Times: []int{1000000000, 1000001000, 1000002000, 1000003000}}
+}
+
+// touch marks directory handles stale after a change in (or removal of) directory d
+func (g *Gen) touch(d string) {
+	for _, h := range g.handles {
+		if h.dir && (h.path == d || strings.HasPrefix(h.path, d+"/")) {
+			h.stale = true
+		}
+	}
 }
 
 func (g *Gen) emit(slot int, format string, a ...any) {
@@ -192,6 +202,7 @@ func (g *Gen) Step() {
 				perm := Pick(r, []int{0o755, 0o700, 0o777, 0o750})
 				g.emit(-1, "Mkdir %s %d", g.hxp(p), perm)
 				g.nodes[p] = &absNode{dir: true, permExplicit: true}
+				g.touch(parentOf(p))
 				return
 			}
 		case 2: // Mkdir on an existing name -> EEXIST
@@ -220,6 +231,7 @@ func (g *Gen) Step() {
 					for q := p; q != "/" && q != d; q = parentOf(q) {
 						if _, ex := g.nodes[q]; !ex {
 							g.nodes[q] = &absNode{dir: true, permExplicit: true}
+							g.touch(parentOf(q))
 						}
 					}
 					return
@@ -231,6 +243,7 @@ func (g *Gen) Step() {
 					s := g.newSlot()
 					g.emit(s, "Create %s", g.hxp(p))
 					g.nodes[p] = &absNode{}
+					g.touch(parentOf(p))
 					g.handles[s] = &absHandle{path: p, canR: true, canW: true}
 					return
 				}
@@ -273,6 +286,7 @@ func (g *Gen) Step() {
 				}
 			} else if create {
 				g.nodes[p] = &absNode{permExplicit: true}
+				g.touch(parentOf(p))
 				g.handles[s] = &absHandle{path: p, canR: acc != 1, canW: acc != 0}
 			}
 			return
@@ -299,6 +313,8 @@ func (g *Gen) Step() {
 			if p, ok := g.pick(func(p string, n *absNode) bool { return p != "/" && (!n.dir || len(g.children(p)) == 0) }); ok {
 				g.emit(-1, "Remove %s", g.hxp(p))
 				delete(g.nodes, p)
+				g.touch(parentOf(p))
+				g.touch(p)
 				return
 			}
 		case 11: // RemoveAll
@@ -313,6 +329,8 @@ func (g *Gen) Step() {
 				for _, q := range g.subtree(p) {
 					delete(g.nodes, q)
 				}
+				g.touch(parentOf(p))
+				g.touch(p)
 				return
 			}
 		case 12, 13: // Rename
@@ -354,6 +372,9 @@ func (g *Gen) Step() {
 				continue
 			}
 			g.emit(-1, "Rename %s %s", g.hxp(p), g.hxp(q))
+			g.touch(parentOf(p))
+			g.touch(parentOf(q))
+			g.touch(p)
 			moved := g.subtree(p)
 			tmp := map[string]*absNode{}
 			for _, x := range moved {
@@ -436,6 +457,15 @@ func (g *Gen) handleOp() bool {
 			g.emit(-1, "HSeek %d 0 0", s)
 		default:
 			g.emit(-1, "HClose %d", s)
+		}
+		return true
+	}
+	if h.dir && h.stale {
+		if r.Bool() {
+			g.emit(-1, "HStat %d", s)
+		} else {
+			g.emit(-1, "HClose %d", s)
+			h.closed = true
 		}
 		return true
 	}
